@@ -32,6 +32,8 @@ package redisemu
 // when the current operand was reached, and the empty set
 //@ ghost gAcc strmapof:bool
 //@ ghost gAccPrev strmapof:bool
+// operands of a set-algebra worker that have been looked up (and type-checked) so far
+//@ ghost gOperandsSeen int
 //@ ghost gSnapDom strmapof:bool
 //@ ghost gEmptySet strmapof:bool
 //@ ghost gFullSet strmapof:bool
